@@ -5,14 +5,41 @@ from vlib.core import Ctx, ddmin
 ID = "C02"
 MODULES = ["IoraModel.Props.C02"]
 LEANCHECK = ["IoraModel.Model.LifecycleCore", "IoraModel.Model.EngineLifecycle", "IoraModel.Model.CloseFanout", "IoraModel.Model.LifecycleSites",
-             "IoraModel.Lemmas.LifecycleCore", "IoraModel.Lemmas.EngineLifecycle", "IoraModel.Lemmas.CloseFanout", "IoraModel.Props.C02"]
+             "IoraModel.Lemmas.LifecycleCore", "IoraModel.Lemmas.LifecycleInv", "IoraModel.Lemmas.EngineLifecycle", "IoraModel.Lemmas.EngineSteps",
+             "IoraModel.Lemmas.CloseFanout", "IoraModel.Props.C02"]
 OBLIGATIONS = [
     {"id": "C02_sites_tcp", "theorem": "Iora.C02.closeSites_covered_tcp", "kind": "proved",
-     "statement": "the lifecycle sites of tcp_engine.hpp (function, kind, guard hash, source order) equal the model's table"},
+     "statement": "the lifecycle sites of tcp_engine.hpp (function, kind, guard hash, source order) equal the model's table (with or without the F18/F20 sites)"},
     {"id": "C02_sites_udp", "theorem": "Iora.C02.closeSites_covered_udp", "kind": "proved",
      "statement": "the lifecycle sites of udp_engine.hpp equal the model's table"},
+    {"id": "C02_sites_bij", "theorem": "Iora.C02.closeSites_bijective", "kind": "proved",
+     "statement": "source close sites <-> close transitions of the model: injective per engine, every Site constructor covered"},
     {"id": "C02_skeletons", "theorem": "Iora.C02.skeletons_conform", "kind": "proved",
      "statement": "loop / dispatch / drain / connect / enqueue / Transport close-handler call orders are the ones the model assumes"},
+    {"id": "C02_reach", "theorem": "Iora.C02.reachable", "kind": "proved",
+     "statement": "the lifecycle invariant (17 clauses relating table, queues, id counter, gauge, peer index to the emitted trace) holds after every history on both engines"},
+    {"id": "C02_T1", "theorem": "Iora.C02.T1_at_most_one_close", "kind": "proved",
+     "statement": "for every config and history, every id occurs in at most one close notification (TCP and UDP)"},
+    {"id": "C02_T2", "theorem": "Iora.C02.T2_exactly_one_close_after_stop", "kind": "proved",
+     "statement": "after the shutdown drain every id returned by connect()/connectViaListener() or announced is closed exactly once (true after the F30 repair)"},
+    {"id": "C02_T2_running", "theorem": "Iora.C02.T2_open_ids_are_tracked", "kind": "proved",
+     "statement": "while running, every seen and not yet closed id is pending in the queue or live in the table"},
+    {"id": "C02_T3", "theorem": "Iora.C02.T3_order", "kind": "proved",
+     "statement": "per id announce < data* < close, nothing after close (data-before-announce under the explicit kernel hypothesis envBad=false)"},
+    {"id": "C02_T3b", "theorem": "Iora.C02.T3_nothing_after_close", "kind": "proved",
+     "statement": "a live table entry has never been closed: no handler can emit for a closed id (no environment hypothesis)"},
+    {"id": "C02_T4", "theorem": "Iora.C02.T4_ids_strictly_increase", "kind": "proved",
+     "statement": "allocated ids strictly increase along every history; every id in any event is below the counter"},
+    {"id": "C02_T5_shape", "theorem": "Iora.C02.T5_fanout_shape", "kind": "proved",
+     "statement": "close fan-out = [global] ++ observers registered at snapshot time in registration order each once ++ [cleanup], whatever the callbacks do"},
+    {"id": "C02_T5_once", "theorem": "Iora.C02.T5_fanout_once", "kind": "proved",
+     "statement": "after a close the session's observers and user data are gone: a second close reaches the global callback only"},
+    {"id": "C02_T5_order", "theorem": "Iora.C02.T5_observers_registration_order", "kind": "proved",
+     "statement": "for every observe/unobserve/setSessionData/close history the observer list is strictly increasing in id (= registration order, each once) and agrees with the index"},
+    {"id": "C02_T6", "theorem": "Iora.C02.T6_gauge", "kind": "proved",
+     "statement": "sessionsCurrent = number of non-closed table entries after every history; announced open sessions are counted; 0 after the drain"},
+    {"id": "C02_udp_index", "theorem": "Iora.C02.udp_index_points_at_live_sessions", "kind": "proved",
+     "statement": "the UDP peer index only points at live announced sessions of that peer (with or without the F17 repair)"},
 ]
 ANCHOR_FILES = ["include/iora/network/detail/tcp_engine.hpp", "include/iora/network/detail/udp_engine.hpp",
                 "include/iora/network/transport_impl.hpp"]
